@@ -41,12 +41,18 @@ Definition cfg_with_limits (c : bank_cfg) (dep bor lim : Z) : bank_cfg :=
   mkBC (bc_awi c) (bc_awm c) (bc_lwi c) (bc_lwm c) dep bor (bc_ir c) (bc_orig_fee c)
        (bc_op_state c) (bc_risk_tier c) (bc_asset_tag c) lim (bc_max_age c) (bc_max_conf c) (bc_oracle_key c).
 
+Definition EBankKilled : err := E E_BankKilledByBankruptcy.
+
 (* Bank::configure *)
 Definition bank_configure (b : cbank) (o : cfg_opt) : res cbank :=
   let c := cb_cfg b in
   let* st :=
     match o_op_state o with
-    | Some s => let* _ := check (negb (s =? OP_KILLED)) EUnauthorized in Ok s
+    | Some s =>
+        let* _ := check (negb (s =? OP_KILLED)) EUnauthorized in
+        (* a bank killed by bankruptcy is permanently shut *)
+        let* _ := check (negb (bc_op_state c =? OP_KILLED)) EBankKilled in
+        Ok s
     | None => Ok (bc_op_state c)
     end in
   let ir' := match o_ir o with Some io => ir_update (bc_ir c) io | None => bc_ir c end in
@@ -127,8 +133,10 @@ Definition ix_configure_emode (g : caps) (now : Z) (b : cbank) (tag : Z) (entrie
   let* _ := em_validate es (cb_cfg b) (cap_init g) (cap_maint g) in
   Ok (mkCBank (cb_cfg b) (cb_flags b) (update_emode_enabled es)).
 
-(* lending_pool_clone_emode: destination_bank.emode = source_bank.emode, nothing else *)
-Definition ix_clone_emode (src dst : cbank) : res cbank :=
+(* lending_pool_clone_emode: destination_bank.emode = source_bank.emode, then the copied entries are
+   validated against the DESTINATION's liability weights and the group's caps *)
+Definition ix_clone_emode (g : caps) (src dst : cbank) : res cbank :=
+  let* _ := em_validate (cb_emode src) (cb_cfg dst) (cap_init g) (cap_maint g) in
   Ok (mkCBank (cb_cfg dst) (cb_flags dst) (cb_emode src)).
 
 (* propagate_staked_settings; `oracle_check` = result of validate_oracle_setup, consulted only when
@@ -200,7 +208,7 @@ Definition apply_req (g : caps) (b : cbank) (r : cfg_req) : res cbank :=
   | RInterestOnly io => ix_configure_interest_only b io
   | RLimitsOnly d bo l => ix_configure_limits_only b d bo l
   | REmode now tag es => ix_configure_emode g now b tag es
-  | RCloneFrom src => ix_clone_emode src b
+  | RCloneFrom src => ix_clone_emode g src b
   | RPropagate s oc => ix_propagate_staked s oc b
   | RMigrateCurve => ix_migrate_curve b
   end.
